@@ -276,6 +276,30 @@ fn fault_space(ctx: &mut Ctx, s: &Sample, p: &mut Prng, idx: &mut u64) {
         }
         probe(ctx, s, &s.id, &t, "c3_zeroed");
     }
+    // C3 replaced by OTHER tags over the same data and session key: HMAC-SM3(K2, C2) (the pre-standard construction),
+    // SM3(K2 || C2), SM3(C2): only SM3(C2 || K2) is the standard's MAC, anything else must be rejected
+    if mine(ctx) {
+        if let Some(de) = r9::extract_enc_key(&s.ke, &s.id, r9::HID_ENC) {
+            let c1 = (r9::from_b(&s.ct[1..33]), r9::from_b(&s.ct[33..65]));
+            if let Some(w) = r9::pairing(&c1, &de) {
+                let c2 = &s.ct[97..];
+                let mut z = s.ct[1..65].to_vec();
+                z.extend_from_slice(&r9::f12bytes(&w));
+                z.extend_from_slice(&s.id);
+                let k = r3::kdf(&z, c2.len() + 32);
+                let k2 = &k[c2.len()..];
+                let tags: [(&str, [u8; 32]); 3] = [("hmac_sm3(K2,C2)", r3::hmac(k2, c2)), ("sm3(K2||C2)", r3::sm3_parts(&[k2, c2])), ("sm3(C2)", r3::sm3(c2))];
+                for (nm, t32) in tags {
+                    let mut t = s.ct.clone();
+                    t[65..97].copy_from_slice(&t32);
+                    if t != s.ct {
+                        probe(ctx, s, &s.id, &t, &format!("c3_other_tag:{}", nm));
+                        ctx.class("c3_replaced_by_other_keyed_tag");
+                    }
+                }
+            }
+        }
+    }
     // C3 changed so that a folded (XOR / sum) comparison cannot see it: two bytes swapped, the same mask on two bytes,
     // bytes reversed, rotated
     for k in 0..6u64 {
@@ -310,7 +334,7 @@ pub fn run(ctx: &mut Ctx) {
     for (n, ok) in r9::selftest(false) {
         ctx.selftest(&n, ok);
     }
-    ctx.require(&["annex_kat", "len_sweep", "fixed_r_exact", "free_r", "roundtrip", "ref_made_decrypts", "bitflip_pc_byte", "bitflip_c1", "bitflip_c2", "bitflip_c3", "truncated_inside_c1", "truncated_inside_c3", "truncated_body", "id_changed", "c1_zero_zero", "c1_offcurve_y_plus_1", "c1_offcurve_random", "pc_byte_illegal_valid_tag", "c1_other_point", "c1_coordinate_plus_p_alias", "c3_zeroed", "msg_len=255", "msg_len=1", "id_empty", "encryptor_has_public_key_only", "interleaved_keys_decrypt", "k1_all_zero_retry", "ke=H1(id)_doubling_in_QB", "crafted_valid_c1_decrypts", "long_msg_or_id", "kdf_beyond_255_blocks", "id_beyond_2^16_bits", "many_calls_one_process", "id_length_sweep", "c3_fold_preserving_change", "id_with_nul_bytes"]);
+    ctx.require(&["annex_kat", "len_sweep", "fixed_r_exact", "free_r", "roundtrip", "ref_made_decrypts", "bitflip_pc_byte", "bitflip_c1", "bitflip_c2", "bitflip_c3", "truncated_inside_c1", "truncated_inside_c3", "truncated_body", "id_changed", "c1_zero_zero", "c1_offcurve_y_plus_1", "c1_offcurve_random", "pc_byte_illegal_valid_tag", "c1_other_point", "c1_coordinate_plus_p_alias", "c3_zeroed", "msg_len=255", "msg_len=1", "id_empty", "encryptor_has_public_key_only", "interleaved_keys_decrypt", "k1_all_zero_retry", "ke=H1(id)_doubling_in_QB", "crafted_valid_c1_decrypts", "long_msg_or_id", "kdf_beyond_255_blocks", "id_beyond_2^16_bits", "many_calls_one_process", "id_length_sweep", "c3_fold_preserving_change", "id_with_nul_bytes", "c3_replaced_by_other_keyed_tag"]);
     let pr = r9::params();
     if ctx.shard == 0 {
         let ke = r9::hexn("0001EDEE3778F441F8DEA3D9FA0ACC4E07EE36C93F9A08618AF4AD85CEDE1C22");
@@ -488,7 +512,7 @@ pub fn run(ctx: &mut Ctx) {
     // hashed exactly as given
     {
         let mut pl = ctx.prng("nul_ids");
-        for (k, id) in [b"Bob\0".to_vec(), b"\0Bob".to_vec(), b"Bo\0b".to_vec(), vec![0u8], vec![0u8; 4], b"Bob\0\0".to_vec(), b"Bob ".to_vec(), b" Bob".to_vec(), b"Bob\n".to_vec(), vec![0xffu8, 0xfe, 0x80]].iter().enumerate() {
+        for (k, id) in [b"Bob\0".to_vec(), b"\0Bob".to_vec(), b"Bo\0b".to_vec(), vec![0u8], vec![0u8; 4], b"Bob\0\0".to_vec(), b"Bob ".to_vec(), b" Bob".to_vec(), b"Bob\n".to_vec(), vec![0xffu8, 0xfe, 0x80], b"Alice\x01".to_vec(), b"Alice\x02".to_vec(), b"Alice\x03".to_vec(), vec![1u8], vec![3u8]].iter().enumerate() {
             let sub = pl.next();
             if !ctx.mine(k as u64) {
                 continue;
